@@ -1,6 +1,6 @@
 (* C14 -- PCMCI <-> graph conversion preserves every link, its direction and its numbers. *)
 From Coq Require Import List Arith ZArith QArith Bool Permutation.
-From CE Require Import Model.GraphConv Proofs.GraphConvProofs Proofs.GraphConvFold Proofs.GraphConvRoundtrip.
+From CE Require Import Model.GraphConv Proofs.GraphConvProofs Proofs.GraphConvFold Proofs.GraphConvRoundtrip Proofs.GraphConvRoundtrip2.
 Import ListNotations.
 Local Open Scope nat_scope.
 
@@ -48,6 +48,13 @@ Print Assumptions C14_unknown_mark_raises.
 Theorem C14_pcmci_roundtrip_every_size : forall r, consistent r = true -> pcmci_roundtrip_ok r = true.
 Proof. exact pcmci_roundtrip. Qed.
 Print Assumptions C14_pcmci_roundtrip_every_size.
+
+(* UNBOUNDED: every graph with unique (source, target, lag) triples whose symmetric links join distinct nodes and are
+   stored in both directions with equal numbers survives graph -> PCMCI -> graph with every link, direction, lag,
+   link type, value and p-value (same number of edges, mutual inclusion) *)
+Theorem C14_graph_roundtrip_every_size : forall n es, graph_ok n es -> graph_roundtrip_ok n es = true.
+Proof. exact graph_roundtrip. Qed.
+Print Assumptions C14_graph_roundtrip_every_size.
 
 (* networkx_to_pcmci, order-independently: writing ANY compatible edge list (duplicate-free keys; a symmetric link
    excludes other links of its pair and is stored with equal numbers; '-->' and '-?>' not both on one ordered pair)
